@@ -377,3 +377,90 @@ func hardSpan(n *RNode) bool {
 	}
 	return true
 }
+
+// NodeByPath finds the real node with the path PathOf would print.
+func NodeByPath(root *decode.Value, path string) *decode.Value {
+	var found *decode.Value
+	_ = root.WalkPreOrder(func(v *decode.Value, _ *decode.Value, _ int, _ int) error {
+		if found == nil && PathOf(v) == path {
+			found = v
+		}
+		return nil
+	})
+	return found
+}
+
+// RefGapRegions lists (path, lo, hi, buffer id) of every gap filled region the
+// reference predicts.
+type GapRegion struct {
+	Path   string
+	Lo, Hi int64
+	Buf    int
+}
+
+func RefGapRegions(root *RNode) []GapRegion {
+	var out []GapRegion
+	var walk func(n *RNode, path string)
+	walk = func(n *RNode, path string) {
+		if n.GapFilled {
+			p := path
+			if p == "" {
+				p = "."
+			}
+			out = append(out, GapRegion{p, n.GapLo, n.GapHi, n.GapBuf})
+		}
+		for i, c := range n.Children {
+			if n.Kind == "array" {
+				walk(c, fmt.Sprintf("%s[%d]", path, i))
+			} else {
+				walk(c, path+"."+c.Name)
+			}
+		}
+	}
+	walk(root, "")
+	return out
+}
+
+// RegionCoverage describes the gap filled region [lo,hi) decoded below node: the gap
+// fields this region's own fill added (gap flagged direct children of node) and all
+// other leaves below node in the same buffer (decoded leaves, and gap fields of
+// deeper gap filled regions, which were ordinary leaves to this region's fill).
+// Positions are relative to lo.
+func RegionCoverage(node *decode.Value, lo, hi int64) (other []int, own []int, leaves [][2]int64, gaps [][2]int64, gapVals []*decode.Value, issues []Issue) {
+	l := hi - lo
+	other = make([]int, l)
+	own = make([]int, l)
+	_ = node.WalkRootPreOrder(func(v *decode.Value, _ *decode.Value, _ int, _ int) error {
+		if _, ok := v.V.(*decode.Compound); ok {
+			return nil
+		}
+		if v == node {
+			return nil
+		}
+		r := v.Range
+		if IsGap(v) && v.Parent == node {
+			if r.Start < lo || r.Stop() > hi {
+				issues = append(issues, Issue{Class: "gap-outside-region", Msg: fmt.Sprintf("%s range %v outside gap filled region %d:%d", PathOf(v), r, lo, hi-lo)})
+				return nil
+			}
+			gaps = append(gaps, [2]int64{r.Start - lo, r.Len})
+			gapVals = append(gapVals, v)
+			for b := r.Start; b < r.Stop(); b++ {
+				own[b-lo]++
+			}
+			return nil
+		}
+		if isSynthetic(v) {
+			return nil
+		}
+		leaves = append(leaves, [2]int64{r.Start - lo, r.Len})
+		for b := max(r.Start, lo); b < min(r.Stop(), hi); b++ {
+			other[b-lo]++
+		}
+		return nil
+	})
+	return
+}
+
+// ReaderBits exposes readerBits.
+func ReaderBits(br bitio.ReaderAtSeeker) ([]bool, error) { return readerBits(br) }
